@@ -44,14 +44,14 @@ def run_ext(ctx):
                 seen.add(k)
                 behaviours.append(h)
     random.Random(ctx.seed).shuffle(behaviours)
-    behaviours = behaviours[: (400 if q else 12000)]
+    behaviours = behaviours[: (400 if q else 9000)]
     if not behaviours:
         raise vlib.Inconclusive("no NotaryPoolImpl behaviours generated")
     ind = os.path.join(ctx.work, "in-c08notary")
     os.makedirs(ind, exist_ok=True)
     json.dump(behaviours, open(os.path.join(ind, "behaviours.json"), "w"))
     # 3. real code
-    res = ctx.go_driver("c08notary", "TestDriver", env={"VERIF_IN": ind, "VERIF_RANDOM": 250 if q else 8000}, timeout=3000)
+    res = ctx.go_driver("c08notary", "TestDriver", env={"VERIF_IN": ind, "VERIF_RANDOM": 250 if q else 5000}, timeout=3000)
     ctx.absorb(res)
     if res.get("stats", {}).get("notarypool_worlds_failed"):
         raise vlib.Inconclusive("%s chain worlds could not be prepared: %s" % (res["stats"]["notarypool_worlds_failed"], (res.get("drift") or [None])[0]))
